@@ -186,6 +186,8 @@ def St.allReturned (s : St) : Bool := s.cons.all ConsPc.returned
 /-- Observable events of a real execution. -/
 inductive Ev where
   | callRun | callReady
+  | callRunHeld               -- Run is called and will be held at hook `spiffe.run.afterCloseReady`
+  | runPark | runRelease      -- Run reached that hook / is released from it
   | callGet (parkable : Bool)
   | callRun2
   | park (i : Nat)            -- consumer i reached hook `spiffe.svid.afterRLock` and is held there
@@ -209,6 +211,7 @@ structure Ctx where
   parked : List Nat := []   -- consumers that stop at the hook (installed and not released)
   reqSeen : Nat := 0        -- number of issuer requests observed so far
   ncons : Nat := 0          -- number of consumer calls made so far = index of the next one
+  runHeld : Bool := false   -- the Run goroutine stops at hook `spiffe.run.afterCloseReady` (before Unlock)
   deriving Repr
 
 structure Sim extends Ctx where
@@ -221,26 +224,30 @@ def insertNew (acc : List St) (s : St) : List St := if acc.contains s then acc e
 def heldAtHook (v : Variant) (parked : List Nat) (s : St) (i : Nat) : Bool :=
   parked.contains i && s.cons[i]? == some (hookPc v)
 
-def tauSucc (v : Variant) (parked : List Nat) (s : St) : List St :=
-  let r := match step v s .run with | some t => [t] | none => []
+/-- The Run goroutine is held by the harness between `close(readyCh)` and `Unlock()`. -/
+def runHeldAtHook (c : Ctx) (s : St) : Bool :=
+  c.runHeld && (s.run == .unlockOk || s.run == .unlockErr)
+
+def tauSucc (v : Variant) (c : Ctx) (s : St) : List St :=
+  let r := if runHeldAtHook c s then [] else match step v s .run with | some t => [t] | none => []
   let cs := (List.range s.cons.length).filterMap fun i =>
-    if heldAtHook v parked s i then none else step v s (.cons i)
+    if heldAtHook v c.parked s i then none else step v s (.cons i)
   r ++ cs
 
 /-- τ-closure by work-list with fuel. -/
-def closure (v : Variant) (parked : List Nat) : Nat → List St → List St → List St
+def closure (v : Variant) (c : Ctx) : Nat → List St → List St → List St
   | 0, acc, _ => acc
   | _, acc, [] => acc
   | n + 1, acc, s :: todo =>
-    let new := (tauSucc v parked s).filter fun t => !(acc.contains t)
+    let new := (tauSucc v c s).filter fun t => !(acc.contains t)
     let new := new.foldl insertNew []
-    closure v parked n (acc ++ new) (todo ++ new)
+    closure v c n (acc ++ new) (todo ++ new)
 
 def close (v : Variant) (m : Sim) : Sim :=
   let init := m.states.foldl insertNew []
-  { m with states := closure v m.parked 100000 init init }
+  { m with states := closure v m.toCtx 100000 init init }
 
-def tauTerminal (v : Variant) (parked : List Nat) (s : St) : Bool := (tauSucc v parked s).isEmpty
+def tauTerminal (v : Variant) (c : Ctx) (s : St) : Bool := (tauSucc v c s).isEmpty
 
 def pendingOf (s : St) : List Nat :=
   (List.range s.cons.length).filter fun i => match s.cons[i]? with | some pc => !pc.returned | none => false
@@ -250,6 +257,9 @@ is incompatible with the observation.  Calls and issuer answers are labels of th
 returns and quiescence are predicates on the state. -/
 def evState (v : Variant) (c : Ctx) (s : St) : Ev → Option St
   | .callRun => step v s .callRun
+  | .callRunHeld => step v s .callRun
+  | .runPark => if runHeldAtHook c s then some s else none
+  | .runRelease => some s
   | .callReady => step v s .callReady
   | .callGet _ => step v s .callGet
   | .callRun2 => step v s .runLoser
@@ -272,7 +282,7 @@ def evState (v : Variant) (c : Ctx) (s : St) : Ev → Option St
   | .quiet p =>
     -- settled: no internal step left, the pending calls are exactly `p`, and a request the model has
     -- outstanding at the issuer has been observed there
-    if tauTerminal v c.parked s && pendingOf s == p &&
+    if tauTerminal v c s && pendingOf s == p &&
         (if s.run = .fetch ∨ s.run = .rotFetch then c.reqSeen == s.nfetch + 1 else true)
     then some s else none
 
@@ -282,6 +292,8 @@ def Ctx.after (c : Ctx) : Ev → Ctx
   | .callGet p => { c with ncons := c.ncons + 1, parked := if p then c.ncons :: c.parked else c.parked }
   | .release i => { c with parked := c.parked.filter (· != i) }
   | .req k => { c with reqSeen := k + 1 }
+  | .callRunHeld => { c with runHeld := true }
+  | .runRelease => { c with runHeld := false }
   | _ => c
 
 /-- One observable event: successor state set (before τ-closure). -/
